@@ -173,3 +173,22 @@ M('C09', 'sortedness-check-weakened', STM + 'membership_commitment/merkle_tree/c
   'if ordered_indices != proof.indices {', 'if ordered_indices.len() != proof.indices.len() {', ['sorted'], 'unsorted index lists accepted')
 M('C09', 'root-check-dropped', STM + 'membership_commitment/merkle_tree/commitment.rs',
   'if leaves.len() == 1 && leaves[0] == self.root {', 'if leaves.len() == 1 && !leaves[0].is_empty() {', ['final-node==root'], 'any final node accepted')
+
+# ---------------------------------------------------------------- C07
+KC = COMMON + 'crypto_helper/cardano/key_certification.rs'
+M('C07', 'kes-check-dropped', KC,
+  '                .with_context(|| "invalid KES signature for Concatenation")?;', '                .with_context(|| "invalid KES signature for Concatenation").ok();', ['KesVerifier::verify'], 'KES failure ignored')
+M('C07', 'opcert-not-validated', COMMON + 'crypto_helper/cardano/kes/verifier_standard.rs',
+  """        operational_certificate
+            .validate()
+            .map_err(|_| KesVerifyError::OpCertInvalid)?;
+""", '', ['OpCert::validate'], 'cold-key signature of the op cert unchecked')
+M('C07', 'kes-window-2', COMMON + 'crypto_helper/cardano/kes/verifier_standard.rs',
+  'kes_evolutions.saturating_add(1)', 'kes_evolutions.saturating_add(2)', ['kes:window'], 'window widened')
+M('C07', 'duplicate-key-accepted', STM + 'protocol/key_registration/register.rs',
+  """        if is_already_registered {
+            return Err(RegisterError::EntryAlreadyRegistered(Box::new(*entry)).into());
+        }
+""", '        let _ = is_already_registered;\n', ['duplicate'], 'same key registered twice')
+M('C07', 'leader-saves-unverified', 'mithril-aggregator/src/services/signer_registration/verifier.rs',
+  '            .get(&party_id_registered)', '            .get(&signer.party_id)', ['agg_verifier'], 'stake looked up by the claimed id')
